@@ -205,6 +205,9 @@ def inflate_dict(ck, P):
 def run(ck):
     P = prog("K1")
     ck.configs.add("K1")
+    # the dictionary id is read across input chunks: a suspended DictId/Dict arm resumes where it stopped
+    from . import c04 as _c04
+    _c04.resume_atomicity(ck, P)
     fdict_sites(ck, P)
     # Z_NEED_DICT reports the announced id in strm.adler: inflate() publishes the check value on every path
     from . import c15 as _c15
